@@ -347,3 +347,52 @@ theorem readFields_enc (g : Bool) (ts ms : List (String × Msg)) (skip : List St
 end
 
 end Rdp
+
+namespace Rdp
+
+/-! step lemmas: establish `OKFields` for a concrete schema one field at a time -/
+
+theorem OKFields_step (g : Bool) (n : String) (t m : Msg) (ts ms : List (String × Msg))
+    (skip : List String) (ds : List (String × Nat)) (o : MOpt)
+    (hn : skip.contains n = false) (ho : options m = .ok o)
+    (hm : match lookupSize ds n with
+        | some k => (enc m).length = k ∧ OK true t m
+        | none => OK (g && ts.isEmpty) t m)
+    (hrest : OKFields g ts ms (addSkip o skip) (addSize o ds)) :
+    OKFields g ((n, t) :: ts) ((n, m) :: ms) skip ds := by
+  unfold OKFields
+  refine ⟨rfl, ?_⟩
+  simp only [hn]
+  exact ⟨o, ho, hm, hrest⟩
+
+theorem OKFields_skip (g : Bool) (n : String) (t : Msg) (ts ms : List (String × Msg))
+    (skip : List String) (ds : List (String × Nat))
+    (hn : skip.contains n = true)
+    (hrest : OKFields g ts ms skip ds) :
+    OKFields g ((n, t) :: ts) ((n, t) :: ms) skip ds := by
+  unfold OKFields
+  refine ⟨rfl, ?_⟩
+  simp only [hn, if_true]
+  exact ⟨trivial, hrest⟩
+
+theorem OKFields_nil (g : Bool) (skip : List String) (ds : List (String × Nat)) :
+    OKFields g [] [] skip ds := by
+  unfold OKFields; trivial
+
+theorem OK_u16 (g : Bool) (e : Endian) (a v : Nat) (h : v < 65536) : OK g (.u16 e a) (.u16 e v) := by
+  simp [OK, h]
+theorem OK_u32 (g : Bool) (e : Endian) (a v : Nat) (h : v < 4294967296) : OK g (.u32 e a) (.u32 e v) := by
+  simp [OK, h]
+theorem OK_u8 (g : Bool) (a v : Nat) (h : v < 256) : OK g (.u8 a) (.u8 v) := by
+  simp [OK, h]
+theorem OK_dyn (g : Bool) (t m : Msg) (f : OptFn) (h : OK g t m) : OK g (.dyn t f) (.dyn m f) := by
+  simp [OK, h]
+theorem OK_bytes_greedy (b : Bytes) : OK true (.bytes []) (.bytes b) := by
+  simp [OK]
+theorem OK_check (g : Bool) (m : Msg) (h1 : OptsOk m) (h2 : OK g m m) : OK g (.check m) (.check m) := by
+  simp only [OK]; exact ⟨trivial, h1, h2⟩
+theorem OK_comp (g : Bool) (ts ms : List (String × Msg)) (h : OKFields g ts ms [] []) :
+    OK g (.comp ts) (.comp ms) := by
+  simp only [OK]; exact h
+
+end Rdp
